@@ -247,6 +247,9 @@ def apply_all(all_changes: List[Change], recorder: ChangeRecorder):
                 return token_range_of(atok, node)
 
             braces_left = atok.next_token(list(atok.get_tokens(parent.func))[-1])
+            while braces_left.string == ")":
+                # the called expression is parenthesised: (f)(...)
+                braces_left = atok.next_token(braces_left)
             assert braces_left.string == "("
             braces_right = list(atok.get_tokens(parent))[-1]
             assert braces_right.string == ")"
